@@ -39,7 +39,7 @@ DATA_MOVE = {"transpose", "conj", "conj_blocks", "flip_signature", "consume_tran
 def plan(tier):
     if tier == "thorough":
         return {"cases": 12000, "shards": 16, "budget_s": 1500}
-    return {"cases": 560, "shards": 8, "budget_s": 300}
+    return {"cases": 1400, "shards": 8, "budget_s": 300}
 
 
 def floors(tier):
@@ -221,7 +221,7 @@ def all_pairwise_paths(n, limit=None, rng=None):
 def unroll_case(ctx, idx):
     import yastn
     rng, nprng = ctx.rng(idx), ctx.nprng(idx)
-    sym = rng.choice([s for s in G.ALL_SYMS])
+    sym = rng.choice(G.ALL_SYMS) if rng.random() < 0.5 else rng.choice(("Z2xU1", "U1xU1", "U1xU1xZ2"))   # several charges per leg
     cfg = D.make_cfg(sym, False, tensordot_policy=rng.choice(POLICIES))
     nt = rng.randint(2, 4)
     ranks = [rng.randint(2, 3) for _ in range(nt)]
@@ -283,10 +283,12 @@ def unroll_case(ctx, idx):
         specs.append(("sliced-contracted", {c: yastn.make_sliced_legs(leg_of(c))}))
         specs.append(("int-contracted", {c: rng.randint(1, max(1, sum(leg_of(c).D)))}))
     if out_labels:
-        o = rng.choice(out_labels)
+        o = rng.choice(out_labels[1:] or out_labels)      # mostly not the first output axis
         specs.append(("sliced-output", {o: yastn.make_sliced_legs(leg_of(o))}))
         from yastn.tensor.oe_blocksparse import slice_leg_uniform
         specs.append(("uniform-output", {o: slice_leg_uniform(leg_of(o), rng.randint(1, max(1, sum(leg_of(o).D))))}))
+        o2 = rng.choice(out_labels)
+        specs.append(("int-output", {o2: rng.randint(1, max(1, max(leg_of(o2).D or (1,))))}))   # slices inside charge sectors
     if contracted and out_labels:
         specs.append(("several", {rng.choice(contracted): rng.randint(1, 3), rng.choice(out_labels): yastn.make_sliced_legs(leg_of(out_labels[0])) if False else rng.randint(1, 3)}))
     specs = [(n, u) for n, u in specs if u is None or all((not isinstance(v, list)) or len(v) > 0 for v in u.values())]
